@@ -1,7 +1,7 @@
 package tacquito
 
 // Generic witness scenario for crypt / crypter.write / newCrypter (C03): bodies of 0..70, 4096
-// and 65536 bytes, secrets with leading / trailing white space and an empty secret, several
+// and 65536 bytes, secrets with leading / trailing white space an empty secret, a 64-octet and a 300-octet secret, several
 // session ids and sequence numbers: the bytes written equal cleartext XOR the RFC 8907 4.5 pad
 // computed independently, header bytes are untouched, the unencrypted flag sends the body
 // verbatim, and applying crypt twice restores the cleartext.
@@ -56,7 +56,7 @@ func TestTqvWitness(t *testing.T) {
 		lens = append(lens, i)
 	}
 	n := 0
-	for _, secret := range [][]byte{[]byte("fooman"), []byte(" key with blanks \n"), []byte("\tx"), {}} {
+	for _, secret := range [][]byte{[]byte("fooman"), []byte(" key with blanks \n"), []byte("\tx"), {}, bytes.Repeat([]byte("0123456789abcdef"), 4), bytes.Repeat([]byte("k"), 300)} {
 		for _, sid := range []uint32{0, 1, 0xdeadbeef, 0xffffffff} {
 			for _, seq := range []byte{1, 2, 255} {
 				for _, l := range lens {
